@@ -1093,6 +1093,11 @@ class Interp:
             raise Unsupported(f"assignment target {type(t).__name__}")
 
     def setitem(self, obj, key, v):
+        if isinstance(obj, NDArr) and isinstance(key, NDArr) and key.buf.kind == "bool":
+            # boolean-mask assignment: arr[mask] = v  ==  arr[...] = where(mask, v, arr)
+            new = A.elementwise(lambda m, x, y: ite(m, x, y) if is_sym(m) else (x if m else y), key, v, obj, name="masked")
+            obj.assign(ALL, new)
+            return
         if isinstance(obj, NDArr):
             try:
                 if isinstance(key, list):
